@@ -265,7 +265,7 @@ def run_both(ctx, case, R, mods, tdy):
 # number), and a BUILD value of zero
 OWN_NUMBER_CORES = ["MAJOR.MINOR.PATCH", "vMAJOR.MINOR.PATCH", "YYYY.0M", "vYYYY.MM.DD", "YYYY.0M.0D", "MAJOR.MINOR", "vYYYY.MM.MINOR"]
 OWN_NUMBER_TAILS = ["[-TAG[INC1]]", "[-TAGINC1]", "[PYTAGINC0]", "[.TAGINC0]", "[.TAGBUILD]", "[-TAG[INC0]]", "[PYTAG[INC1]]",
-                    "[-TAGBLD]", "[.PYTAGINC1]"]
+                    "[-TAGBLD]", "[.PYTAGINC1]", "[-TAG[.INC0]]", "[-TAG.INC1]", "[-TAG.BUILD]", "[.TAG[.INC1]]"]
 ZERO_BUILD_PATTERNS = ["MAJOR.MINOR.BUILD", "vYYYY0M.BUILD[-TAG]", "YYYY.BUILD[-TAGNUM]", "vYYYY.0M.BUILD", "MAJOR.BUILD[PYTAGNUM]",
                        "YYYY.MM.BLD", "vMAJOR.MINOR.PATCH.BUILD"]
 
